@@ -26,6 +26,7 @@ func init() {
 	chk.RegisterWorker("c01root", workC01Root)
 	chk.RegisterWorker("c01models", workC01Models)
 	chk.RegisterWorker("c01inject", workC01Inject)
+	chk.RegisterWorker("c01types", workC01Types)
 }
 
 // workC01Models: F6 — every generated valid model (canonical layout), with its top-level blocks in the original and in
@@ -443,6 +444,25 @@ func workC01Inject(w *run.W) {
 	}
 }
 
+// workC01Types: F8 — every graph of three user types over the body templates x consumers (typegraphs.go).
+func workC01Types(w *run.W) {
+	dir := workerDir(w)
+	defer os.RemoveAll(dir)
+	var idx int64
+	typeGraphDocs(1, func(name, text string) {
+		idx++
+		if !w.Mine(idx) || !w.Begin(name) {
+			return
+		}
+		c01Total(w, "types", impl.Single(text), dir)
+		w.Nontrivial(text)
+		w.End()
+	})
+	if w.Shard == 0 {
+		w.Sample(map[string]any{"family": "types", "documents": idx})
+	}
+}
+
 // workC01Root: F5 — root-file edge cases.
 func workC01Root(w *run.W) {
 	dir := workerDir(w)
@@ -492,6 +512,7 @@ func runC01(c *chk.Ctx) {
 		{"c01macro", c01MacroParams{Macros: 3}},
 		{"c01include", c01IncludeParams{Files: chk.Pick(c, 2, 3), MaxList: chk.Pick(c, 2, 1)}},
 		{"c01inject", c01InjectParams{Mixed: !c.Quick()}},
+		{"c01types", map[string]any{}},
 	}
 	fam := map[string]any{}
 	for _, s := range steps {
@@ -509,6 +530,6 @@ func runC01(c *chk.Ctx) {
 		}
 	}
 	c.Cov["families"] = fam
-	c.Cov["rule"] = "seven exhaustively enumerated families: (inject) two compact documents covering every kind of region with one byte, and every pair of positions, replaced by each of 15 special bytes (thorough: also pairs of two different bytes); (models) every generated valid model within the node budget with its top-level blocks in declaration and in reversed order; (bytes) all 256 bytes and all pairs of ~50 class-representative bytes after the shortest witness of every scanner control state up to the token depth; (sequences) all sequences of well-formed and malformed directive instances up to the length bound, with and without a leading JSIGHT; (macro-graphs) all PASTE graphs over k macros incl. cycles and undefined targets; (include-graphs) all include lists over files/missing/directory/empty/dot targets x placements, on a real directory; (root) nonexistent/directory/empty root and every single byte. Oracle: a catalog or a non-nil located error, no recovered panic, no fatal error, no hang. non-trivial = distinct input, counted by content hash"
+	c.Cov["rule"] = "eight exhaustively enumerated families: (types) every graph of three user types whose bodies come from 11 templates referring to the other two (object, optional reference, or-shortcut, array, allOf, or-rule, rule-violating examples short and long, any, regex, scalar) x 7 consumers of the first type x both declaration orders; (inject) two compact documents covering every kind of region with one byte, and every pair of positions, replaced by each of 15 special bytes (thorough: also pairs of two different bytes); (models) every generated valid model within the node budget with its top-level blocks in declaration and in reversed order; (bytes) all 256 bytes and all pairs of ~50 class-representative bytes after the shortest witness of every scanner control state up to the token depth; (sequences) all sequences of well-formed and malformed directive instances up to the length bound, with and without a leading JSIGHT; (macro-graphs) all PASTE graphs over k macros incl. cycles and undefined targets; (include-graphs) all include lists over files/missing/directory/empty/dot targets x placements, on a real directory; (root) nonexistent/directory/empty root and every single byte. Oracle: a catalog or a non-nil located error, no recovered panic, no fatal error, no hang. non-trivial = distinct input, counted by content hash"
 	c.Assumptions = append(c.Assumptions, "time proportional to the input is not decided; only absence of hangs (20 s per-case deadline, believed after reproduction)")
 }
